@@ -13,6 +13,8 @@ From the abstract traces of StateUpdater::update_for_probe per probe-status cell
  R6 recurrences, compared up to algebraic equivalence (exact polynomial normal form, rounding aside) with their definitions:
     total_time' = total_time + rtt; mean' = mean + (x − mean)/n'; m2' = m2 + (x − mean)(x − mean') (Welford), so that
     stddev = sqrt(m2/(n−1)) is the sample standard deviation; best/worst = min/max; javg' = javg + (j − javg)/n'.
+ R8 StateUpdater::apply hands every element of round.probes to update_for_probe — no take / skip / filter, once each, in order — so the effect
+    tables R1–R5 apply to every published probe.
  R7 is_forward_loss: true iff at least one later-TTL probe exists and all later ones are Awaited (Skipped slots do not count as answers).
 Not decided: floating-point drift; jinta (an mtr-style smoothed estimator without an independent definition).
 """
@@ -33,8 +35,43 @@ def run(chk, tier):
     where = fn_loc(f)
     for r, d, fl in (('R1', 'counter effect table per status cell', 5), ('R2', 'forward/backward loss attribution', 3), ('R3', 'sample history: insert(0) once, pop iff over the cap', 3),
                      ('R4', 'loss percentage in [0,100]', 1), ('R5', 'last-probe details copied from the same probe; slot = ttl − 1', 3), ('R6', 'update recurrences equal their definitions', 4),
-                     ('R7', 'is_forward_loss predicate', 1)):
+                     ('R7', 'is_forward_loss predicate', 1), ('R8', 'every probe of a round is aggregated exactly once, in order', 2)):
         chk.rule(r, d, floor=fl)
+
+    # ---- R8: StateUpdater::apply hands every element of round.probes to update_for_probe, once, in order ------------------
+    fa = prog.find(r'StateUpdater::apply$')
+    chk.fn_seen(fa['path'])
+    e8 = Engine(prog, inline_depth=0)
+    st8 = St()
+    outs8 = e8.run(fa, [e8.sym_ref(st8, 'self')], st8)
+    ITER = r'call:(iter::into_iter|slice::iter|IntoIterator::into_iter)\(self\.round\.probes\)'
+    ok8 = bool(outs8)
+    why8 = ''
+    n_upd = 0
+    for o in outs8:
+        calls = user_calls(o)
+        nexts = [c for c in calls if re.search(r'::next$', c[1])]
+        upds = [c for c in calls if re.search(r'StateUpdater.*::update_for_probe$', c[1])]
+        adapt = [short(c[1]) for c in calls if re.search(r'Iterator::(take|skip|filter|step_by|rev|take_while|skip_while|filter_map|zip|chain)$|::(take|skip|rev)$', c[1])]
+        if adapt:
+            ok8, why8 = False, 'the probes of the round pass through %s before they are aggregated' % sorted(set(adapt))
+        for c in nexts:
+            src = vshow(c[7][0])
+            if not (re.fullmatch(ITER, src) or re.fullmatch(r'havoc:\w+::next\(%s, \d+\)' % ITER, src)):
+                ok8, why8 = False, 'the aggregation loop iterates %s, not round.probes' % src[:100]
+        # each element obtained is handed to update_for_probe before the next one is fetched
+        order = [('n' if c in nexts else 'u') for c in calls if c in nexts or c in upds]
+        if ''.join(order).replace('nu', '') not in ('', 'n'):
+            ok8, why8 = False, 'fetch / aggregate calls are not paired (%s)' % ''.join(order)
+        for c in upds:
+            n_upd += 1
+            if not re.fullmatch(r'field:0\(call:\w+::next\(.*\)\)', vshow(c[7][1])):
+                ok8, why8 = False, 'update_for_probe receives %s' % vshow(c[7][1])[:80]
+    if ok8 and n_upd:
+        chk.ok('R8', 'apply:all-probes', 'for probe in round.probes { update_for_probe(probe) } — no adaptor, every element once, in order')
+        chk.ok('R8', 'apply:pairing', '%d fetch→aggregate pairs on the explored traces' % n_upd)
+    else:
+        chk.fail('R8', 'apply:all-probes', fn_loc(fa), 'StateUpdater::apply: %s; every probe the strategy published (sent, failed, awaited) must reach the per-hop counters' % (why8 or 'no aggregation call found'), key='R8|apply')
 
     spec = {
         'Complete': {'total_sent': 1, 'total_recv': 1, 'total_failed': 0, 'total_forward_lost': 0, 'total_backward_lost': 0},
